@@ -35,10 +35,18 @@ ENV = dict(os.environ)
 ENV.update({"CARGO_NET_OFFLINE": "true", "CARGO_TARGET_DIR": TARGET})
 
 
-def sh(cmd, cwd=None, timeout=None, env=None, stdin=None):
+def _limit_memory():
+    # a runaway allocation in a harness run must abort that process, not the machine
+    import resource
+    lim = 24 * 1024 ** 3
+    resource.setrlimit(resource.RLIMIT_AS, (lim, lim))
+
+
+def sh(cmd, cwd=None, timeout=None, env=None, stdin=None, limit_mem=False):
     t0 = time.time()
     try:
         p = subprocess.run(cmd, cwd=cwd, timeout=timeout, env=env or ENV, stdin=stdin,
+                           preexec_fn=_limit_memory if limit_mem else None,
                            stdout=subprocess.PIPE, stderr=subprocess.STDOUT, text=True, errors="replace")
         return p.returncode, p.stdout, time.time() - t0
     except subprocess.TimeoutExpired as e:
@@ -179,7 +187,7 @@ def run_harness(pid, seed, tier, wdir, timeout, extra=None):
     cmd = [NVH, "run", pid, "--seed", str(seed), "--tier", tier, "--dir", wdir]
     if extra:
         cmd = [NVH, "replay", pid, "--seed", str(seed), "--tier", tier, "--dir", wdir] + extra
-    return sh(cmd, cwd=ROOT, timeout=timeout)
+    return sh(cmd, cwd=ROOT, timeout=timeout, limit_mem=True)
 
 
 def read_lines(path):
